@@ -122,6 +122,9 @@ public:
 		std::map<std::string,std::string> env=request().getenv();
 		for(std::map<std::string,std::string>::const_iterator p=env.begin();p!=env.end();++p)
 			put_rec(out,'E',p->first,p->second);
+		// by-name lookups (string_map::get through connection::getenv(name)) next to the getenv() map above
+		for(std::map<std::string,std::string>::const_iterator p=env.begin();p!=env.end();++p)
+			put_rec(out,'N',p->first,request().getenv(p->first));
 		typedef cppcms::http::request::form_type form_type;
 		form_type const &g=request().get();
 		for(form_type::const_iterator p=g.begin();p!=g.end();++p) put_rec(out,'G',p->first,p->second);
